@@ -21,7 +21,7 @@ RULE = (
 )
 ASSUMPTIONS = [
     "MINI containers are excluded from the moment clause (the bubble unknown has no position)",
-    "axisymmetric mass matrix and 2-component body-force values on axisymmetric fields raise in felupe and are not generated",
+    "body-force values on plane-strain / axisymmetric fields: one per field component or three with a zero circumferential one",
     "tolerance 1e-10 relative to max|f| * number of points",
 ]
 
@@ -162,14 +162,22 @@ def check(ax, case, rec):
         else:
             fc = fem.FieldContainer([vfield()])
         c01.set_state(fc, X, c, dim)
-        ncomp = 3 if (kind in ("axi", "planestrain") and (axi or c["mask"])) else fc.fields[0].dim
+        # plane-strain and axisymmetric fields take the in-plane components (one per field component - the item's own
+        # default) or three components with a zero circumferential one
+        ncomp = 3 if (kind in ("axi", "planestrain") and c["mask"]) else fc.fields[0].dim
         vals = rng.uniform(-1, 1, ncomp)
-        if axi:
+        if axi and ncomp == 3:
             vals[2] = 0.0
+        rec.label(f"components={ncomp}")
         scale = c["load"] + 2.5
         first = vals if not c["preload"] else rng.uniform(-1, 1, ncomp) * np.array([1, 1, 0 if axi else 1])[:ncomp]
         if ax == "gravity":
             it = fem.SolidBodyGravity(fc, gravity=first.tolist(), density=scale)
+        elif c["preload"] and c["lseed"] % 2 and ncomp == fc.fields[0].dim:
+            # created with the default values (zeros, one per field component): assembles to zero, values follow by update()
+            it = fem.SolidBodyForce(fc, scale=scale)
+            r_def = np.asarray(it.assemble.vector(fc).toarray()).ravel()
+            rec.close("default-values-assemble-to-zero", float(np.abs(r_def).max()), 0.0)
         else:
             it = fem.SolidBodyForce(fc, values=first.tolist(), scale=scale)
         if c["preload"]:
